@@ -10,6 +10,7 @@ mod ops_gossip;
 mod ops_locks;
 mod ops_misc;
 mod ops_parser;
+mod ops_part;
 mod ops_raft;
 mod ops_rel;
 mod ops_wal;
@@ -38,6 +39,9 @@ fn dispatch(req: &Value) -> Value {
         return v;
     }
     if let Some(v) = ops_locks::handle(op, req) {
+        return v;
+    }
+    if let Some(v) = ops_part::handle(op, req) {
         return v;
     }
     if let Some(v) = ops_coord::handle(op, req) {
